@@ -127,6 +127,10 @@ class Server:
                             self.log.append({"event": "handshake-failed", "error": str(ex)[:120], "conn": cid})
                         return
                     inner.update(tls=True, peer_cert=conn.getpeercert(), alpn=conn.selected_alpn_protocol())
+                    if inner["alpn"] == "h2":
+                        with self.lock:
+                            self.log.append({"event": "alpn-h2", "conn": cid, "peer_cert": inner["peer_cert"], "via_proxy": True})
+                        return
                 info = inner
                 buf = b""
                 continue
@@ -171,6 +175,7 @@ class Server:
             keep = False
         elif mode == "long":
             hs.append(("Content-Length", str(max(0, len(body) - b.get("cut", 3)))))
+            hs.append(("Connection", "close"))  # otherwise the client may reuse a connection we are about to close
             keep = False
         elif mode == "reset-after-headers":
             hs.append(("Content-Length", str(len(body))))
@@ -179,6 +184,7 @@ class Server:
             hs.append(("Content-Length", str(len(body))))
         elif b.get("content_length") is not None:
             hs.append(("Content-Length", str(b["content_length"])))
+            hs.append(("Connection", "close"))
             keep = False
         else:
             keep = False
